@@ -81,6 +81,52 @@ class BuiltinMixin:
                 conds.append(p.hi <= p.lo)
         yield V(BOOL, z3.And(*conds)), st
 
+    # ---- cell width of a line of segments: sum over the segments of (0 if control else cells(text))
+    def segcells(self):
+        """(UF, element measure): prefix sums of segment cell widths over an array of Segment records;
+        unfolding axiom + monotonicity lemma (cell widths are >= 0; induction on j - i) added once"""
+        if getattr(self, "_segcells", None) is None:
+            so = self.U.rec("Segment")
+            dt = self.U.z3sort(so)
+            sdt = self.U.z3sort(STR)
+            arrsort = z3.ArraySort(z3.IntSort(), dt)
+            uf = z3.Function("segcells", arrsort, z3.IntSort(), z3.IntSort())
+            decl = self.U.records["Segment"]
+            idx = {f: i for i, (f, _) in enumerate(decl.fields)}
+
+            def measure(seg):
+                text = dt.accessor(0, idx["text"])(seg)
+                ctrl = dt.accessor(0, idx["is_control"])(seg)
+                return z3.If(ctrl, 0, seqs.pcell(sdt.arr(text), sdt.len(text)) - seqs.pcell(sdt.arr(text), 0))
+
+            a = z3.Const("a!seg", arrsort)
+            i, j = z3.Int("i!seg"), z3.Int("j!seg")
+            self.global_facts.append(z3.ForAll([a, i], uf(a, i + 1) == uf(a, i) + measure(a[i]), patterns=[a[i]]))
+            self.global_facts.append(z3.ForAll([a, i, j], z3.Implies(i <= j, uf(a, i) <= uf(a, j)), patterns=[z3.MultiPattern(uf(a, i), uf(a, j))]))
+            s_ = z3.Const("s!seg", dt)
+            self.global_facts.append(z3.ForAll([s_], z3.Implies(sdt.len(dt.accessor(0, idx["text"])(s_)) >= 0, measure(s_) >= 0), patterns=[dt.accessor(0, idx["text"])(s_)]))
+            self._segcells = (uf, measure)
+        return self._segcells
+
+    def bi_line_cells(self, args, kwargs, st):
+        vs = self.as_seq(args[0], st, "line_cells()")
+        if vs.elem.kind != "rec" or vs.elem.name != "Segment":
+            if not vs.pieces:
+                yield V(INT, self.I(0)), st
+                return
+            raise Unsupported("line_cells of a non-Segment list")
+        uf, measure = self.segcells()
+        r = z3.IntVal(0)
+        for p in vs.pieces:
+            if p.kind == "view":
+                r = r + uf(p.a, p.hi) - uf(p.a, p.lo)
+            elif p.kind == "rep":
+                r = r + p.hi * measure(p.a)
+            else:
+                for it in p.items:
+                    r = r + measure(it)
+        yield V(INT, self.from_mathint(z3.simplify(r))), st
+
     def bi_seq_eq(self, args, kwargs, st):
         yield V(BOOL, self.val_eq(args[0], args[1], st)), st
 
